@@ -521,6 +521,446 @@ pub fn gen_c08(rng: &mut Prng, thorough: bool, out: &mut Out) {
     }
 }
 
+
+// ------------------------------------------------------------------------------------------
+// Reference constructions in dlog form (written from the documented constructions)
+pub const SALT_SC: &[u8] = b"SIGNCRYPT_BLS12381_XOF:HKDF-SHA2-256_";
+pub const SALT_TL: &[u8] = b"TIMELOCK_BLS12381_XOF:HKDF-SHA2-256_";
+pub const SALT_POK: &[u8] = b"BLS_POK__BLS12381_XOF:HKDF-SHA2-256_";
+
+pub fn leb128(mut x: u128) -> Vec<u8> {
+    let mut v = vec![];
+    while x >= 0x80 {
+        v.push((x as u8) | 0x80);
+        x >>= 7;
+    }
+    v.push(x as u8);
+    v
+}
+pub fn frame(msg: &[u8]) -> Vec<u8> {
+    let mut v = leb128(msg.len() as u128);
+    v.extend_from_slice(msg);
+    while v.len() < 32 {
+        v.push(0);
+    }
+    v
+}
+pub fn xor(a: &[u8], b: &[u8]) -> Vec<u8> {
+    a.iter().zip(b.iter()).map(|(x, y)| x ^ y).collect()
+}
+fn arr32(v: &[u8]) -> [u8; 32] {
+    let mut a = [0u8; 32];
+    a.copy_from_slice(v);
+    a
+}
+
+/// (u dlog, v bytes, w dlog) of a signcryption ciphertext for `pk`, drawn from `seed`
+pub fn sc_seal_ref(g1: bool, pk: &RScalar, msg: &[u8], dstv: &[u8], seed: &[u8]) -> (RScalar, Vec<u8>, RScalar) {
+    let r = hkdf_scalar(SALT_SC, &rng_bytes32(&arr32(seed)));
+    let fr = frame(msg);
+    let ks = xof(&crate::refs::sc_enc_pk(g1, &(*pk * r)), fr.len());
+    let v = xor(&fr, &ks);
+    let mut t = crate::refs::sc_enc_pk(g1, &r);
+    t.extend_from_slice(&v);
+    (r, v, eta(&t, dstv) * r)
+}
+
+pub fn tl_seal_ref(g1: bool, pk: &RScalar, msg: &[u8], id: &[u8], dstv: &[u8], seed: &[u8]) -> (RScalar, Vec<u8>, Vec<u8>) {
+    let alpha = hkdf_scalar(SALT_TL, &rng_bytes32(&arr32(seed)));
+    let mut a = sc_be(&alpha).to_vec();
+    a.reverse();
+    let mut inp = a.clone();
+    inp.extend_from_slice(&sha256(msg));
+    let r = hkdf_scalar(SALT_TL, &inp);
+    let _ = g1;
+    let k = eta(id, dstv) * (*pk * r);
+    let v = xor(&a, &sha256(&enc_gt(&k)));
+    let fr = frame(msg);
+    let w = xor(&fr, &xof(&a, fr.len()));
+    (r, v, w)
+}
+
+fn ct_tok(u: &RScalar, v: &[u8], w: &RScalar, scheme: u8) -> String {
+    format!("q{} x{} p{} c{}", hs(u), hx(v), hs(w), SCH[scheme as usize])
+}
+
+pub fn gen_c11(rng: &mut Prng, thorough: bool, out: &mut Out) {
+    let mut lens: Vec<usize> = vec![0, 1, 2, 30, 31, 32, 33, 40, 100, 127, 128, 129, 140];
+    if thorough {
+        lens.extend(3..30);
+        lens.extend_from_slice(&[16380, 16383, 16384, 16390, 65536]);
+    } else {
+        lens.push(16384);
+    }
+    for g1 in [true, false] {
+        for (li, &len) in lens.iter().enumerate() {
+            let scheme = (li % 3) as u8;
+            let sk = if li % 5 == 0 { RScalar::ONE } else { rng.scalar() };
+            let msg = message(rng, len);
+            let seed = rng.bytes(32);
+            let d = dst(g1, scheme);
+            out.case(g1, &format!("pk_sign_crypt q{} c{} x{} x{}", hs(&sk), SCH[scheme as usize], hx(&msg), hx(&seed)));
+            let (u, v, w) = sc_seal_ref(g1, &sk, &msg, &d, &seed);
+            let ct = ct_tok(&u, &v, &w, scheme);
+            out.case(g1, &format!("scct_is_valid {}", ct));
+            out.case(g1, &format!("scct_decrypt {} s{}", ct, hs(&sk)));
+            out.case(g1, &format!("scdk_decrypt {} q{}", ct, hs(&(u * sk))));
+            if len > 300 {
+                continue;
+            }
+            // alterations
+            let mut alts: Vec<(RScalar, Vec<u8>, RScalar, u8)> = vec![];
+            alts.push((u + RScalar::ONE, v.clone(), w, scheme));
+            alts.push((u, v.clone(), w + RScalar::ONE, scheme));
+            alts.push((u, v.clone(), -w, scheme));
+            alts.push((RScalar::ZERO, v.clone(), w, scheme));
+            alts.push((u, v.clone(), RScalar::ZERO, scheme));
+            for _ in 0..(if thorough { 12 } else { 3 }) {
+                let mut v2 = v.clone();
+                let i = rng.below(v2.len() as u64) as usize;
+                v2[i] ^= 1 << rng.below(8);
+                alts.push((u, v2, w, scheme));
+            }
+            let mut v3 = v.clone();
+            v3.pop();
+            alts.push((u, v3, w, scheme));
+            let mut v4 = v.clone();
+            v4.push(0);
+            alts.push((u, v4, w, scheme));
+            alts.push((u, vec![], w, scheme));
+            alts.push((u, vec![v[0]], w, scheme));
+            alts.push((u, v.clone(), w, (scheme + 1) % 3));
+            alts.push((u, v.clone(), w, (scheme + 2) % 3));
+            for (u2, v2, w2, s2) in alts {
+                let ct2 = ct_tok(&u2, &v2, &w2, s2);
+                out.case(g1, &format!("scct_is_valid {}", ct2));
+                out.case(g1, &format!("scct_decrypt {} s{}", ct2, hs(&sk)));
+            }
+            // wrong keys
+            let wrong = rng.scalar();
+            out.case(g1, &format!("scct_decrypt {} s{}", ct, hs(&wrong)));
+            out.case(g1, &format!("scdk_decrypt {} q{}", ct, hs(&(u * wrong))));
+            out.case(g1, &format!("scct_decrypt {} s00", ct));
+        }
+    }
+}
+
+pub fn gen_c12(rng: &mut Prng, thorough: bool, out: &mut Out) {
+    let grid: Vec<(usize, usize)> = if thorough {
+        vec![(2, 2), (2, 3), (3, 3), (2, 4), (3, 5), (5, 5), (4, 7), (7, 7), (10, 20)]
+    } else {
+        vec![(2, 2), (2, 3), (3, 5), (4, 7)]
+    };
+    for g1 in [true, false] {
+        for &(t, n) in &grid {
+            for scheme in 0..3u8 {
+                let sk = rng.scalar();
+                let coeffs: Vec<RScalar> = std::iter::once(sk).chain((1..t).map(|_| rng.scalar())).collect();
+                let msg = rng.bytes(16 + t);
+                let seed = rng.bytes(32);
+                let d = dst(g1, scheme);
+                let (u, v, w) = sc_seal_ref(g1, &sk, &msg, &d, &seed);
+                let ct = ct_tok(&u, &v, &w, scheme);
+                let (u2, v2, w2) = sc_seal_ref(g1, &sk, &msg, &d, &rng.bytes(32));
+                let ct_other = ct_tok(&u2, &v2, &w2, scheme);
+                let ct_relabel = ct_tok(&u, &v, &w, (scheme + 1) % 3);
+                let ids: Vec<u64> = (1..=n as u64).collect();
+                for &i in &[1u64, n as u64] {
+                    let y = shamir_eval(&coeffs, i);
+                    out.case(g1, &format!("scct_create_decryption_share {} {}", ct, share_tok(i, &y)));
+                    let ds = pt_share_tok(i, &enc_pk(g1, &(u * y)));
+                    let pks = pt_share_tok(i, &enc_pk(g1, &y));
+                    let j = if i == 1 { n as u64 } else { 1 };
+                    let pks_j = pt_share_tok(j, &enc_pk(g1, &shamir_eval(&coeffs, j)));
+                    out.case(g1, &format!("sds_verify {} {} {}", ct, ds, pks));
+                    out.case(g1, &format!("sds_verify {} {} {}", ct, ds, pks_j));
+                    out.case(g1, &format!("sds_verify {} {} {}", ct_other, ds, pks));
+                    out.case(g1, &format!("sds_verify {} {} {}", ct_relabel, ds, pks));
+                }
+                let mut sizes = vec![t, n, 2];
+                if t > 2 { sizes.push(t - 1); }
+                sizes.push(1);
+                sizes.push(0);
+                for sz in sizes {
+                    let mut sel = ids.clone();
+                    for i in (1..sel.len()).rev() {
+                        let j = rng.below(i as u64 + 1) as usize;
+                        sel.swap(i, j);
+                    }
+                    sel.truncate(sz);
+                    let sh: Vec<String> = sel.iter().map(|&i| pt_share_tok(i, &enc_pk(g1, &(u * shamir_eval(&coeffs, i))))).collect();
+                    out.case(g1, &format!("scct_decrypt_with_shares {} {}", ct, list_tok(&sh)));
+                    out.case(g1, &format!("scdk_from_shares {}", list_tok(&sh)));
+                }
+                // a share that is not a valid point, duplicated / zero identifiers
+                let good = pt_share_tok(1, &enc_pk(g1, &(u * shamir_eval(&coeffs, 1))));
+                let bad = pt_share_tok(2, &vec![0x11u8; enc_pk(g1, &sk).len()]);
+                out.case(g1, &format!("scct_decrypt_with_shares {} [ {} {} ]", ct, good, bad));
+                out.case(g1, &format!("scct_decrypt_with_shares {} [ {} {} ]", ct, good, good));
+                let zero = pt_share_tok(0, &enc_pk(g1, &(u * shamir_eval(&coeffs, 2))));
+                out.case(g1, &format!("scct_decrypt_with_shares {} [ {} {} ]", ct, good, zero));
+            }
+        }
+    }
+}
+
+pub fn gen_c13(rng: &mut Prng, thorough: bool, out: &mut Out) {
+    let mut lens: Vec<usize> = vec![0, 1, 7, 30, 31, 32, 33, 100, 128, 140];
+    if thorough {
+        lens.extend(2..30);
+        lens.extend_from_slice(&[16383, 16384, 65536]);
+    } else {
+        lens.push(16384);
+    }
+    for g1 in [true, false] {
+        for (li, &len) in lens.iter().enumerate() {
+            let scheme = (li % 3) as u8;
+            let sk = if li % 4 == 0 { RScalar::ONE } else { rng.scalar() };
+            let msg = if li % 3 == 0 { vec![0u8; len] } else { message(rng, len) };
+            let id = if li % 5 == 0 { vec![] } else { rng.bytes(1 + li % 20) };
+            let seed = rng.bytes(32);
+            let sc = SCH[scheme as usize];
+            out.case(g1, &format!("pk_encrypt_time_lock q{} c{} x{} x{} x{}", hs(&sk), sc, hx(&msg), hx(&id), hx(&seed)));
+            let d = dst(g1, scheme);
+            let idp = amsg(g1, scheme, &sk, &id);
+            let (u, v, w) = tl_seal_ref(g1, &sk, &msg, &idp, &d, &seed);
+            let sig = sig_dlog(g1, scheme, &sk, &id);
+            let dec = |out: &mut Out, u: &RScalar, v: &[u8], w: &[u8], cs: u8, ss: u8, sg: &RScalar| {
+                out.case(g1, &format!("tlct_decrypt q{} x{} x{} c{} c{} p{}", hs(u), hx(v), hx(w), SCH[cs as usize], SCH[ss as usize], hs(sg)));
+            };
+            dec(out, &u, &v, &w, scheme, scheme, &sig);
+            if len > 300 {
+                continue;
+            }
+            // wrong id / key / scheme / identity
+            let mut id2 = id.clone();
+            id2.push(1);
+            dec(out, &u, &v, &w, scheme, scheme, &sig_dlog(g1, scheme, &sk, &id2));
+            dec(out, &u, &v, &w, scheme, scheme, &sig_dlog(g1, scheme, &rng.scalar(), &id));
+            dec(out, &u, &v, &w, scheme, (scheme + 1) % 3, &sig);
+            dec(out, &u, &v, &w, (scheme + 1) % 3, (scheme + 1) % 3, &sig);
+            dec(out, &u, &v, &w, scheme, scheme, &RScalar::ZERO);
+            dec(out, &RScalar::ZERO, &v, &w, scheme, scheme, &sig);
+            dec(out, &(u + RScalar::ONE), &v, &w, scheme, scheme, &sig);
+            // header / authenticated payload bits
+            for _ in 0..(if thorough { 8 } else { 2 }) {
+                let mut v2 = v.clone();
+                let i = rng.below(32) as usize;
+                v2[i] ^= 1 << rng.below(8);
+                dec(out, &u, &v2, &w, scheme, scheme, &sig);
+            }
+            let auth = leb128(len as u128).len() + len;
+            for b in 0..8 {
+                let mut w2 = w.clone();
+                w2[0] ^= 1 << b;
+                dec(out, &u, &v, &w2, scheme, scheme, &sig);
+            }
+            for _ in 0..(if thorough { 10 } else { 3 }) {
+                if auth > 1 {
+                    let mut w2 = w.clone();
+                    let i = 1 + rng.below(auth as u64 - 1) as usize;
+                    w2[i] ^= 1 << rng.below(8);
+                    dec(out, &u, &v, &w2, scheme, scheme, &sig);
+                }
+            }
+            // padding flips, extension, truncation
+            if auth < w.len() {
+                let mut w2 = w.clone();
+                let i = auth + rng.below((w.len() - auth) as u64) as usize;
+                w2[i] ^= 1 << rng.below(8);
+                dec(out, &u, &v, &w2, scheme, scheme, &sig);
+                let mut w3 = w.clone();
+                w3.pop();
+                dec(out, &u, &v, &w3, scheme, scheme, &sig);
+            }
+            let mut w4 = w.clone();
+            w4.push(0x5a);
+            dec(out, &u, &v, &w4, scheme, scheme, &sig);
+            dec(out, &u, &v, &[], scheme, scheme, &sig);
+            dec(out, &u, &v, &w[..1], scheme, scheme, &sig);
+        }
+        out.case(g1, &format!("pk_encrypt_time_lock q00 cbasic x00 x00 x{}", hx(&rng.bytes(32))));
+    }
+}
+
+pub fn gen_c14(rng: &mut Prng, thorough: bool, out: &mut Out) {
+    for g1 in [true, false] {
+        out.case(g1, "message_generator");
+        let n = if thorough { 12 } else { 4 };
+        for i in 0..n {
+            let sk = if i == 0 { RScalar::ONE } else { rng.scalar() };
+            let m = match i { 0 => RScalar::ONE, 1 => -RScalar::ONE, _ => rng.scalar() };
+            let seed = rng.bytes(32);
+            out.case(g1, &format!("eg_encrypt q{} s{} x{}", hs(&sk), hs(&m), hx(&seed)));
+            out.case(g1, &format!("eg_encrypt_proof q{} s{} x{}", hs(&sk), hs(&m), hx(&seed)));
+            // hand-made ciphertexts with a known generator dlog are not available (the generator is a
+            // hash point); decrypt / add are exercised on arbitrary points
+            let (c1, c2) = (rng.scalar(), rng.scalar());
+            out.case(g1, &format!("egct_decrypt q{} q{} s{}", hs(&c1), hs(&c2), hs(&sk)));
+            out.case(g1, &format!("egdk_decrypt q{} q{} q{}", hs(&(c1 * sk)), hs(&c1), hs(&c2)));
+            let k = 2 + (i % 15);
+            let cts: Vec<String> = (0..k).map(|_| format!("q{} q{}", hs(&rng.scalar()), hs(&rng.scalar()))).collect();
+            out.case(g1, &format!("egct_add {}", list_tok(&cts)));
+            // proof verification on arbitrary (invalid) tuples and guards
+            let (mp, bp, ch) = (rng.scalar(), rng.scalar(), rng.scalar());
+            out.case(g1, &format!("egp_verify q{} q{} s{} s{} s{} q{}", hs(&c1), hs(&c2), hs(&mp), hs(&bp), hs(&ch), hs(&sk)));
+            out.case(g1, &format!("egp_verify_and_decrypt q{} q{} s{} s{} s{} s{}", hs(&c1), hs(&c2), hs(&mp), hs(&bp), hs(&ch), hs(&sk)));
+            out.case(g1, &format!("egp_verify_and_decrypt q{} q{} s{} s{} s{} s00", hs(&c1), hs(&c2), hs(&mp), hs(&bp), hs(&ch)));
+            // threshold decryption key
+            let t = 2 + i % 3;
+            let coeffs: Vec<RScalar> = std::iter::once(sk).chain((1..t).map(|_| rng.scalar())).collect();
+            let sh: Vec<String> = (1..=t as u64 + 1).map(|j| pt_share_tok(j, &enc_pk(g1, &(c1 * shamir_eval(&coeffs, j))))).collect();
+            out.case(g1, &format!("egdk_from_shares {}", list_tok(&sh)));
+            out.case(g1, &format!("egdk_from_shares {}", list_tok(&sh[..1])));
+        }
+        out.case(g1, &format!("eg_encrypt q00 s01 x{}", hx(&rng.bytes(32))));
+        out.case(g1, &format!("eg_encrypt_proof q00 s01 x{}", hx(&rng.bytes(32))));
+    }
+}
+
+/// proof of knowledge in dlog form: u = H*x, v = -(sig*(x+y))
+pub fn gen_c10(rng: &mut Prng, thorough: bool, out: &mut Out) {
+    for g1 in [true, false] {
+        let n = if thorough { 10 } else { 3 };
+        for i in 0..n {
+            for scheme in 0..3u8 {
+                let sc = SCH[scheme as usize];
+                let sk = if i == 0 { RScalar::ONE } else { rng.scalar() };
+                let msg = rng.bytes(i * 7);
+                let sig = sig_dlog(g1, scheme, &sk, &msg);
+                let seed = rng.bytes(32);
+                out.case(g1, &format!("pc_generate x{} c{} p{} [ x{} ]", hx(&msg), sc, hs(&sig), hx(&seed)));
+                let x = rng.scalar();
+                let y = rng.scalar();
+                let h = eta(&msg, &dst(g1, scheme));
+                let u = h * x;
+                let v = -(sig * (x + y));
+                out.case(g1, &format!("pc_finalize c{} p{} s{} s{} c{} p{}", sc, hs(&u), hs(&x), hs(&y), sc, hs(&sig)));
+                out.case(g1, &format!("pc_finalize c{} p{} s{} s{} c{} p{}", sc, hs(&u), hs(&x), hs(&y), SCH[((scheme + 1) % 3) as usize], hs(&sig)));
+                out.case(g1, &format!("pc_finalize c{} p{} s00 s{} c{} p{}", sc, hs(&u), hs(&y), sc, hs(&sig)));
+                out.case(g1, &format!("pc_finalize c{} p{} s{} s00 c{} p{}", sc, hs(&u), hs(&x), sc, hs(&sig)));
+                out.case(g1, &format!("pc_finalize c{} p00 s{} s{} c{} p{}", sc, hs(&x), hs(&y), sc, hs(&sig)));
+                out.case(g1, &format!("pc_finalize c{} p{} s{} s{} c{} p00", sc, hs(&u), hs(&x), hs(&y), sc));
+                let ver = |out: &mut Out, s: u8, u: &RScalar, v: &RScalar, pk: &RScalar, m: &[u8], y: &RScalar| {
+                    out.case(g1, &format!("pok_verify c{} p{} p{} q{} x{} s{}", SCH[s as usize], hs(u), hs(v), hs(pk), hx(m), hs(y)));
+                };
+                ver(out, scheme, &u, &v, &sk, &msg, &y);
+                ver(out, scheme, &u, &v, &sk, &msg, &(y + RScalar::ONE));
+                ver(out, scheme, &u, &v, &(sk + RScalar::ONE), &msg, &y);
+                let mut m2 = msg.clone();
+                m2.push(0);
+                ver(out, scheme, &u, &v, &sk, &m2, &y);
+                ver(out, scheme, &(u + RScalar::ONE), &v, &sk, &msg, &y);
+                ver(out, scheme, &u, &-v, &sk, &msg, &y);
+                ver(out, scheme, &v, &u, &sk, &msg, &y);
+                ver(out, (scheme + 1) % 3, &u, &v, &sk, &msg, &y);
+                ver(out, scheme, &RScalar::ZERO, &v, &sk, &msg, &y);
+                ver(out, scheme, &u, &RScalar::ZERO, &sk, &msg, &y);
+                ver(out, scheme, &u, &v, &RScalar::ZERO, &msg, &y);
+                ver(out, scheme, &u, &v, &sk, &msg, &RScalar::ZERO);
+                // the augmented message makes an Aug proof verify (documented work-around)
+                if scheme == 1 {
+                    let am = amsg(g1, 1, &sk, &msg);
+                    let ha = eta(&am, &dst(g1, 1));
+                    ver(out, 1, &(ha * x), &v, &sk, &am, &y);
+                }
+                for t in [0u128, 1, 1_700_000_000_000, (1u128 << 63), u64::MAX as u128] {
+                    out.case(g1, &format!("compute_y p{} n{}", hs(&u), t));
+                }
+                // timestamp variant
+                out.case(g1, &format!("pokts_generate x{} c{} p{} [ x{} ]", hx(&msg), sc, hs(&sig), hx(&rng.bytes(32))));
+                for off in ["0", "-1", "-1000", "-100000", "-100000000000", "1000", "100000", "1000000000", "-1790000000000", "9000000000000000000"] {
+                    for tmo in ["?", "!n0", "!n5000", "!n200000", "!n18446744073709551615"] {
+                        if !thorough && (i + off.len() + tmo.len()) % 3 != 0 {
+                            continue;
+                        }
+                        out.case(g1, &format!("pokts_verify_rel s{} s{} c{} x{} w{} {}", hs(&sk), hs(&x), sc, hx(&msg), off, tmo));
+                    }
+                }
+            }
+        }
+    }
+}
+
+pub fn gen_c04(rng: &mut Prng, _thorough: bool, out: &mut Out) {
+    for g1 in [true, false] {
+        for scheme in 0..3u8 {
+            let sc = SCH[scheme as usize];
+            let sk = rng.scalar();
+            let msg = rng.bytes(9);
+            let sig = sig_dlog(g1, scheme, &sk, &msg);
+            out.case(g1, &format!("sk_sign s00 c{} x{}", sc, hx(&msg)));
+            out.case(g1, &format!("sig_verify c{} p00 q{} x{}", sc, hs(&sk), hx(&msg)));
+            out.case(g1, &format!("sig_verify c{} p{} q00 x{}", sc, hs(&sig), hx(&msg)));
+            out.case(g1, &format!("sig_verify c{} p00 q00 x{}", sc, hx(&msg)));
+            out.case(g1, &format!("multi_verify c{} p00 q{} x{}", sc, hs(&sk), hx(&msg)));
+            out.case(g1, &format!("multi_verify c{} p{} q00 x{}", sc, hs(&sig), hx(&msg)));
+            // accumulated key that is the identity (k and -k)
+            out.case(g1, &format!("multi_pk [ q{} q{} ]", hs(&sk), hs(&-sk)));
+            for n in [2usize, 3, 5] {
+                let sks: Vec<(RScalar, Vec<u8>)> = (0..n).map(|i| (rng.scalar(), vec![i as u8, 7])).collect();
+                let agg = agg_dlog(g1, scheme, &sks);
+                for k in 0..n {
+                    let mut p = sks.clone();
+                    p[k].0 = RScalar::ZERO;
+                    out.case(g1, &format!("agg_verify c{} p{} {}", sc, hs(&agg), pairs_tok(&p)));
+                    let mut others = sks.clone();
+                    others.remove(k);
+                    let agg_o = agg_dlog(g1, scheme, &others);
+                    out.case(g1, &format!("agg_verify c{} p{} {}", sc, hs(&agg_o), pairs_tok(&p)));
+                }
+                out.case(g1, &format!("agg_verify c{} p00 {}", sc, pairs_tok(&sks)));
+            }
+            // proofs of knowledge
+            let (x, y) = (rng.scalar(), rng.scalar());
+            let h = eta(&msg, &dst(g1, scheme));
+            let (u, v) = (h * x, -(sig * (x + y)));
+            out.case(g1, &format!("pok_verify c{} p00 p{} q{} x{} s{}", sc, hs(&v), hs(&sk), hx(&msg), hs(&y)));
+            out.case(g1, &format!("pok_verify c{} p{} p00 q{} x{} s{}", sc, hs(&u), hs(&sk), hx(&msg), hs(&y)));
+            out.case(g1, &format!("pok_verify c{} p{} p{} q00 x{} s{}", sc, hs(&u), hs(&v), hx(&msg), hs(&y)));
+            out.case(g1, &format!("pok_verify c{} p{} p{} q{} x{} s00", sc, hs(&u), hs(&v), hs(&sk), hx(&msg)));
+            // forged: u = -H*y makes the committed sum the identity, v = identity would satisfy the equation
+            out.case(g1, &format!("pok_verify c{} p{} p00 q{} x{} s{}", sc, hs(&-(h * y)), hs(&sk), hx(&msg), hs(&y)));
+            // signcryption / time lock with identities
+            let seed = rng.bytes(32);
+            let d = dst(g1, scheme);
+            let (cu, cv, cw) = sc_seal_ref(g1, &sk, &msg, &d, &seed);
+            out.case(g1, &format!("scct_is_valid {}", ct_tok(&RScalar::ZERO, &cv, &cw, scheme)));
+            out.case(g1, &format!("scct_is_valid {}", ct_tok(&cu, &cv, &RScalar::ZERO, scheme)));
+            out.case(g1, &format!("scct_decrypt {} s{}", ct_tok(&RScalar::ZERO, &cv, &RScalar::ZERO, scheme), hs(&sk)));
+            out.case(g1, &format!("scct_decrypt {} s{}", ct_tok(&cu, &cv, &RScalar::ZERO, scheme), hs(&sk)));
+            let idp = amsg(g1, scheme, &sk, b"id");
+            let (tu, tv, tw) = tl_seal_ref(g1, &sk, &msg, &idp, &d, &seed);
+            let tsig = sig_dlog(g1, scheme, &sk, b"id");
+            out.case(g1, &format!("tlct_decrypt q00 x{} x{} c{} c{} p{}", hx(&tv), hx(&tw), sc, sc, hs(&tsig)));
+            out.case(g1, &format!("tlct_decrypt q{} x{} x{} c{} c{} p00", hs(&tu), hx(&tv), hx(&tw), sc, sc));
+            out.case(g1, &format!("pk_encrypt_time_lock q00 c{} x00 x00 x{}", sc, hx(&seed)));
+            out.case(g1, &format!("sks_sign h1:{} c{} x00", "00".repeat(32), sc));
+        }
+        out.case(g1, "pop_prove s00");
+        let sk = rng.scalar();
+        let pd = eta(&enc_pk(g1, &sk), &dst_pop(g1)) * sk;
+        out.case(g1, &format!("pop_verify p00 q{}", hs(&sk)));
+        out.case(g1, &format!("pop_verify p{} q00", hs(&pd)));
+        out.case(g1, "pop_verify p00 q00");
+        let seed = rng.bytes(32);
+        out.case(g1, &format!("eg_encrypt q00 s05 x{}", hx(&seed)));
+        out.case(g1, &format!("eg_encrypt_proof q00 s05 x{}", hx(&seed)));
+        let (c1, c2, a, b, c) = (rng.scalar(), rng.scalar(), rng.scalar(), rng.scalar(), rng.scalar());
+        for (p1, p2, s1, s2, s3, pk) in [
+            (RScalar::ZERO, c2, a, b, c, sk), (c1, RScalar::ZERO, a, b, c, sk), (c1, c2, RScalar::ZERO, b, c, sk),
+            (c1, c2, a, RScalar::ZERO, c, sk), (c1, c2, a, b, RScalar::ZERO, sk), (c1, c2, a, b, c, RScalar::ZERO),
+        ] {
+            out.case(g1, &format!("egp_verify q{} q{} s{} s{} s{} q{}", hs(&p1), hs(&p2), hs(&s1), hs(&s2), hs(&s3), hs(&pk)));
+        }
+        out.case(g1, &format!("egp_verify_and_decrypt q{} q{} s{} s{} s{} s00", hs(&c1), hs(&c2), hs(&a), hs(&b), hs(&c)));
+        for z in ["00".repeat(32), "00".repeat(31) + "80", "80".to_string() + &"00".repeat(31)] {
+            out.case(g1, &format!("sk_from_be x{}", z));
+            out.case(g1, &format!("sk_from_le x{}", z));
+        }
+    }
+}
+
 pub fn generate(prop: &str, thorough: bool, seed: u64) -> Out {
     let mut rng = Prng(seed ^ 0xB15F_u64.wrapping_mul(prop.bytes().fold(7u64, |a, b| a.wrapping_mul(131).wrapping_add(b as u64))));
     let mut out = Out::new();
@@ -532,6 +972,12 @@ pub fn generate(prop: &str, thorough: bool, seed: u64) -> Out {
         "C07" => gen_c07(&mut rng, thorough, &mut out),
         "C08" => gen_c08(&mut rng, thorough, &mut out),
         "C09" => gen_c09(&mut rng, thorough, &mut out),
+        "C04" => gen_c04(&mut rng, thorough, &mut out),
+        "C10" => gen_c10(&mut rng, thorough, &mut out),
+        "C11" => gen_c11(&mut rng, thorough, &mut out),
+        "C12" => gen_c12(&mut rng, thorough, &mut out),
+        "C13" => gen_c13(&mut rng, thorough, &mut out),
+        "C14" => gen_c14(&mut rng, thorough, &mut out),
         _ => {}
     }
     out
